@@ -125,6 +125,9 @@ impl ToTokens for FlattenInitializer<'_> {
             parent_field_names,
         } = self;
         let ident = field.ident;
+        // `map` / `and_then` on the flatten field apply to the flattened value, as they do for
+        // every other field.
+        let post_transform = field.post_transform.as_ref();
 
         let add_parent_fields = if parent_field_names.is_empty() {
             None
@@ -137,7 +140,7 @@ impl ToTokens for FlattenInitializer<'_> {
         tokens.append_all(quote! {
             #ident = (true,
                 __errors.handle(
-                    ::darling::FromMeta::from_list(&__flatten) #add_parent_fields
+                    ::darling::FromMeta::from_list(&__flatten) #add_parent_fields #post_transform
                     )
                 );
         });
